@@ -280,12 +280,19 @@ theorem repoStat_clauses (i : Input) (sl : Option Bytes) (d : List DReq) :
       simp [RpcName.mutating]
     simp [hf, mkOut, Output.success, doneOps, RpcName.mutating, opsAsRequested, hnil]
 
-theorem repoGC_clauses (i : Input) (sl : Option Bytes) (d : List DReq) :
-    hClauses i .repoGC sl (mkOut (repoGCH i.env) d) := by
+theorem lit_streamErrors_ne : b!"stream-errors" ≠ b!"arg" := by decide
+
+theorem repoGC_clauses (i : Input) (sl : Option Bytes) (d : List DReq)
+    (hcorner : gcSerr i.env (parseQuery (i.query.getD [])) = false) :
+    hClauses i .repoGC sl (mkOut (repoGCH i.env (handlerQuery i sl)) d) := by
+  have hg : gcSerr i.env (handlerQuery i sl) = false := by
+    unfold gcSerr at hcorner ⊢
+    rw [handlerQuery_other i sl b!"stream-errors" lit_streamErrors_ne]
+    exact hcorner
   unfold hClauses repoGCH
   by_cases hf : i.env.fail .repoGC = true
   · simp [hf, mkOut, Output.success, doneOps]
-  · simp [hf, mkOut, Output.success, doneOps, RpcName.mutating, opsAsRequested]
+  · simp [hf, hg, mkOut, Output.success, doneOps, RpcName.mutating, opsAsRequested]
 
 
 theorem pinUpdate_clauses (i : Input) (d : List DReq)
@@ -385,7 +392,7 @@ def handlerModel (typed : Bool) (ep : Endpoint) (e : Env) (q : List (Bytes × By
   | .pinUpdate => pinUpdateH e q
   | .add => addH typed e q obs
   | .repoStat => repoStatH e
-  | .repoGC => repoGCH e
+  | .repoGC => repoGCH e q
 
 theorem handlerOut_of_endpoint (typed : Bool) (h : String) (ep : Endpoint) (e : Env) (q : List (Bytes × Bytes)) (obs : AddObs)
     (hh : endpointOfHandler h = some ep) : handlerOut typed h e q obs = handlerModel typed ep e q obs := by
@@ -449,7 +456,8 @@ structure WF (i : Input) (obs : AddObs) : Prop where
   root : obs.items.getLast? = some obs.root
   resolved : i.env.resCid ≠ []
 
-/-- the corners in which today's code does not meet the property (known findings K12a, K12b, K12c) -/
+/-- the corners in which today's code does not meet the property (known findings K30, K31, K32 and, round 8c, K12d:
+    repo/gc whose collection reported an error without `stream-errors=true`) -/
 def corner (typed : Bool) (i : Input) : Bool :=
   match pctDecode false i.path with
   | none => false
@@ -458,6 +466,7 @@ def corner (typed : Bool) (i : Input) : Bool :=
     | none => !isClean p
     | some (.pinUpdate, _) => i.env.fail .unpin
     | some (.add, _) => qGet (parseQuery (i.query.getD [])) b!"pin" == b!"false" && (!typed || i.env.fail .unpin)
+    | some (.repoGC, _) => gcSerr i.env (parseQuery (i.query.getD []))
     | some _ => false
 
 theorem helper_clauses (i : Input) (p : Bytes) (ep : Endpoint) (sl : Option Bytes)
@@ -490,7 +499,9 @@ theorem hijack_holds (typed : Bool) (i : Input) (obs : AddObs) (p : Bytes) (ep :
       | pinRm => exact pinRm_clauses i sl _ (hwf.oracle _)
       | pinLs => exact pinLs_clauses i sl _
       | repoStat => exact repoStat_clauses i sl _
-      | repoGC => exact repoGC_clauses i sl _
+      | repoGC =>
+        have hg : gcSerr i.env (parseQuery (i.query.getD [])) = false := by simpa [corner, hd, hcls] using hc
+        exact repoGC_clauses i sl _ hg
       | pinUpdate =>
         have hsl : sl = none := by
           cases sl with
@@ -552,6 +563,11 @@ def witAdd : Input :=
   { method := "POST", path := b!"/api/v0/add", query := some (b!"pin=false"), hdrs := [], body := [],
     env := { resCid := [1], extractPath := b!"/api/v0/version" } }
 
+/-- POST /api/v0/repo/gc, a second peer's collection failed (K12d) -/
+def witGC : Input :=
+  { method := "POST", path := b!"/api/v0/repo/gc", query := none, hdrs := [], body := [],
+    env := { resCid := [1], extractPath := b!"/api/v0/version", gcKeys := [[9]], gcErr := 1 } }
+
 /-- GET //x -/
 def witRedirect : Input :=
   { method := "GET", path := [47, 47, 120], query := none, hdrs := [], body := [],
@@ -586,6 +602,9 @@ theorem witUpdate_wf : WF witUpdate { root := [], items := [[]] } :=
   wf_of_oracle _ _ (by decide) (by decide) (by decide) (by decide) (by decide)
 
 theorem witAdd_wf : WF witAdd { root := [7], items := [[7]] } :=
+  wf_of_oracle _ _ (by decide) (by decide) (by decide) (by decide) (by decide)
+
+theorem witGC_wf : WF witGC { root := [], items := [[]] } :=
   wf_of_oracle _ _ (by decide) (by decide) (by decide) (by decide) (by decide)
 
 theorem witRedirect_wf : WF witRedirect { root := [], items := [[]] } :=
